@@ -769,6 +769,26 @@ def install(I, mkcls, meth):
         dt = "object" if "object" in (arr.dtype, vals.dtype) else arr.dtype
         return mk(_copy(arr.data) + _copy(vals.data), dt)
 
+    @reg("resize")
+    def _resize(i, a, k):
+        # np.resize(a, new_shape): a NEW array of that shape filled with (repeated) copies of a's elements in C order
+        arr = asarray(i, a[0])
+        shp = a[1] if len(a) > 1 else k.get("new_shape")
+        shp = tuple(i.iterate(shp)) if not isinstance(shp, int) else (shp,)
+        if not all(type(x) is int and x >= 0 for x in shp):
+            raise Unsupported("np.resize with a symbolic shape")
+        src = flat(_copy(arr.data)) if isinstance(arr.data, list) else [arr.data]
+        n = 1
+        for x in shp:
+            n *= x
+        if not src:
+            fl = [0.0] * n
+        else:
+            fl = [src[j % len(src)] for j in range(n)]
+        r = mk(build(shp, fl), arr.dtype)
+        r.tail = shp
+        return r
+
     @reg("delete")
     def _delete(i, a, k):
         arr = asarray(i, a[0])
